@@ -120,7 +120,8 @@ def run(prog, rep):
         if ok:
             nb, nt = nexts[0]
             src = canon(tr.operand(nt["args"][0]))
-            m = re.match(r"^&IntoIterator::into_iter\(&?\*?(.*)\)$", src)
+            m = re.match(r"^&IntoIterator::into_iter\(&?\*?(.*)\)$", src) or re.match(r"^&(?:HashMap|hash_map::HashMap)::iter\(&?\*?(.*)\)$", src) or \
+                re.match(r"^&slice::iter\(&\*Deref::deref\(&?\*?(.*)\)\)$", src)
             inner = m.group(1) if m else src
             ok = re.search(field_pat, inner) is not None and not re.search(r"\b(rev|skip|take|filter|step_by|chain|zip)\(", inner)
             detail = inner[:120]
